@@ -49,6 +49,67 @@ def se_exponent(xarr, xoff, carr, coff, nfeat_lo, nfeat_hi, exps_shift=0):
     return tm.mk_sum(j, tm.lift(nfeat_lo), tm.lift(nfeat_hi), rd("exps", j - exps_shift) * d * d)
 
 
+def se_value_spec(fname, i, n, nc, nf):
+    """Contract of the C kernels (value clause): the amount added to out[i], as a term over rd:xin / rd:xctrl / rd:actrl / rd:exps.
+    Written from the documentation of the squared-exponential kernel sum f(x) = sum_t alpha_t k(x, c_t); proved against the C summary
+    by unit_se_kernel, and used as the callee contract by the Python-side proof of C11 (contracts/c11.py)."""
+    t = fresh("t$")
+    if fname == "evaluate_se_kernel":
+        return tm.mk_sum(t, tm.ZERO, nc, rd("actrl", t) * tm.mk_fn("exp", -se_exponent("xin", i * nf, "xctrl", t * nf, 0, nf)))
+    if fname == "evaluate_se_kernel_antisym":
+        def e1(a, b):
+            dd = rd("xin", i * nf + a) - rd("xctrl", t * nf + b)
+            return tm.mk_fn("exp", -rd("exps", 0) * dd * dd)
+        rest = tm.mk_fn("exp", -se_exponent("xin", i * nf + 2, "xctrl", t * nf + 2, 0, nf - 2, exps_shift=-1))
+        return tm.mk_sum(t, tm.ZERO, nc, rd("actrl", t) * rest * (e1(0, 0) - e1(0, 1) - e1(1, 0) + e1(1, 1)))
+    stride = nf if fname == "evaluate_se_kernel_spin" else 2 * nf
+    xb = n * nf if fname == "evaluate_se_kernel_spin" else nf
+    cb = nc * nf if fname == "evaluate_se_kernel_spin" else nf
+    aa = se_exponent("xin", i * stride, "xctrl", t * stride, 0, nf)
+    ab = se_exponent("xin", i * stride, "xctrl", t * stride + cb, 0, nf)
+    ba = se_exponent("xin", i * stride + xb, "xctrl", t * stride, 0, nf)
+    bb = se_exponent("xin", i * stride + xb, "xctrl", t * stride + cb, 0, nf)
+    return tm.mk_sum(t, tm.ZERO, nc, rd("actrl", t) * (tm.mk_fn("exp", -(aa + bb)) + tm.mk_fn("exp", -(ab + ba))))
+
+
+def instantiate(term, ints, arrays):
+    """Evaluate a contract term at concrete sizes: integer variables replaced, bound sums expanded, rd:<arr>(k) replaced by arrays[arr][k]."""
+    cache = {}
+
+    def go(u, env):
+        key = (u.id, tuple(sorted((k.id, v) for k, v in env.items())))
+        if key in cache:
+            return cache[key]
+        op = u.op
+        if op == "v":
+            r = tm.const(env[u]) if u in env else u
+        elif op == "c":
+            r = u
+        elif op == "sum":
+            bv, lo, hi, body = u.args
+            lo_, hi_ = go(lo, env), go(hi, env)
+            if lo_.op != "c" or hi_.op != "c":
+                raise ValueError("non-concrete sum bounds")
+            parts = []
+            for q in range(int(lo_.args[0]), int(hi_.args[0])):
+                e2 = dict(env)
+                e2[bv] = q
+                parts.append(go(body, e2))
+            r = tm.mk_add(*parts) if parts else tm.ZERO
+        elif op == "f" and u.args[0].startswith("rd:"):
+            k = go(u.args[1], env)
+            if k.op != "c":
+                raise ValueError("non-concrete read index %s" % tm.show(k, 80))
+            r = tm.lift(arrays[u.args[0][3:]][int(k.args[0])])
+        elif op == "f":
+            r = tm.mk_fn(u.args[0], *[go(a, env) for a in u.args[1:]])
+        else:
+            r = tm.rebuild(op, [go(a, env) if isinstance(a, tm.T) else a for a in u.args])
+        cache[key] = r
+        return r
+    return go(tm.lift(term), dict(ints))
+
+
 def unit_se_kernel(fname, value_spec=True):
     """Value summary and D-spec between `out` and `outd` of one C kernel, for all n, nctrl, nfeat (no bound)."""
     def run(ctx):
@@ -70,25 +131,8 @@ def unit_se_kernel(fname, value_spec=True):
         ev, addr, free, total, inj = outs[0]
         i = addr[0][0]
         H = hyps + list(ev.guards[:2])
-        t = fresh("t$")
         if value_spec:
-            if fname == "evaluate_se_kernel":
-                spec = tm.mk_sum(t, tm.ZERO, nc, rd("actrl", t) * tm.mk_fn("exp", -se_exponent("xin", i * nf, "xctrl", t * nf, 0, nf)))
-            elif fname == "evaluate_se_kernel_antisym":
-                def e1(a, b):
-                    dd = rd("xin", i * nf + a) - rd("xctrl", t * nf + b)
-                    return tm.mk_fn("exp", -rd("exps", 0) * dd * dd)
-                rest = tm.mk_fn("exp", -se_exponent("xin", i * nf + 2, "xctrl", t * nf + 2, 0, nf - 2, exps_shift=-1))
-                spec = tm.mk_sum(t, tm.ZERO, nc, rd("actrl", t) * rest * (e1(0, 0) - e1(0, 1) - e1(1, 0) + e1(1, 1)))
-            else:
-                stride = nf if fname == "evaluate_se_kernel_spin" else 2 * nf
-                xb = n * nf if fname == "evaluate_se_kernel_spin" else nf
-                cb = nc * nf if fname == "evaluate_se_kernel_spin" else nf
-                aa = se_exponent("xin", i * stride, "xctrl", t * stride, 0, nf)
-                ab = se_exponent("xin", i * stride, "xctrl", t * stride + cb, 0, nf)
-                ba = se_exponent("xin", i * stride + xb, "xctrl", t * stride, 0, nf)
-                bb = se_exponent("xin", i * stride + xb, "xctrl", t * stride + cb, 0, nf)
-                spec = tm.mk_sum(t, tm.ZERO, nc, rd("actrl", t) * (tm.mk_fn("exp", -(aa + bb)) + tm.mk_fn("exp", -(ab + ba))))
+            spec = se_value_spec(fname, i, n, nc, nf)
             ctx.equal("%s.value: out[i] += sum_t alpha_t k(x_i, c_t)" % fname, H, total, spec, fq, replay=replay_kernel(fname))
             ctx.canary("%s.value canary" % fname, H, total, 2 * spec)
         # D-spec: every outd element receives d(out contribution)/d(xin element at the same position)
